@@ -1,6 +1,7 @@
 package props
 
 import (
+	"os"
 	"encoding/json"
 	"fmt"
 	"sort"
@@ -84,7 +85,58 @@ func c14Body(p c14Params) func() explore.SchedOutcome {
 	if p.Harness == "C" {
 		return func() explore.SchedOutcome { return c14C(p) }
 	}
+	if p.Harness == "D" {
+		return func() explore.SchedOutcome { return c14D(p) }
+	}
 	return func() explore.SchedOutcome { return c14B(p) }
+}
+
+// Harness D (login while the account goes away): a client logs in with valid credentials while an administrator
+// deletes that account.  Alone, in either order, the login is answered (accepted, or "Incorrect login."); it must be
+// answered, once, under every schedule.
+func c14D(p c14Params) (out explore.SchedOutcome) {
+	vrt.BeginSetup()
+	w := world.New(world.Cfg{Accounts: []world.Acct{{Login: "guest", Name: "Guest"}, {Login: "admin", Name: "Admin", Password: "secret", Access: world.AllAccess}, {Login: "vic", Name: "Vic", Password: "vp", Access: world.AllAccess}}})
+	defer w.Close()
+	// vic's connection is opened first: the default schedule then completes the login before the deletion, and one
+	// deviation (the login held up between the password check and the registration) reaches the window
+	c := w.Dial("10.0.0.3:1003")
+	c.Name = "vic"
+	c.Handshake()
+	world.Quiet()
+	adm, ra := w.Connect("10.0.0.1:1001", "admin", "secret", "adm")
+	if ra == nil {
+		out.Violations = append(out.Violations, explore.SchedV{Signature: "C14/D/setup-login-failed", Detail: "login got no reply"})
+		return out
+	}
+	adm.New()
+	login := world.LoginTx("vic", "vp", ref.FS(ref.FUserName, "vic"), ref.F16(ref.FUserIconID, 1))
+	login.ID = 0x30001
+	c.Send(login)
+	delID := adm.Send(ref.Tx{Type: ref.TDeleteUser, Fields: []ref.Fld{ref.F(ref.FUserLogin, ref.Obfuscate([]byte("vic")))}})
+	vrt.EndSetup()
+	vrt.Settle(10 * time.Second)
+	c.Poll()
+	n := 0
+	for _, t := range c.Inbox {
+		if t.IsReply == 1 && t.ID == login.ID {
+			n++
+		}
+	}
+	if n == 0 {
+		out.Violations = append(out.Violations, explore.SchedV{Signature: "C14/D/correlation/missing-reply/login", Detail: "a login with the account's password, sent while an administrator deletes the account, got no reply at all (connection closed: " + fmt.Sprint(c.Conn.Closed) + ")"})
+	}
+	if n > 1 {
+		out.Violations = append(out.Violations, explore.SchedV{Signature: "C14/D/correlation/duplicate-reply", Detail: fmt.Sprintf("%d replies to the login", n)})
+	}
+	if adm.Reply(delID) == nil {
+		out.Violations = append(out.Violations, explore.SchedV{Signature: "C14/D/correlation/missing-reply/delete-user", Detail: ""})
+	}
+	for _, pn := range vrt.S.Panics() {
+		out.Violations = append(out.Violations, explore.SchedV{Signature: "C14/D/panic/" + vrt.PanicSite(pn), Detail: pn})
+	}
+	out.Canon = fmt.Sprintf("login-replies=%d closed=%v", n, c.Conn.Closed)
+	return out
 }
 
 func pattern(n int, seed byte) []byte {
@@ -452,6 +504,8 @@ func runC14(w *explore.Worker) {
 			jobs = append(jobs, job{c14Params{Harness: "C", Follow: f, Joined: j}, b})
 		}
 	}
+	// harness D: login while the account is deleted
+	jobs = append(jobs, job{c14Params{Harness: "D"}, boundB})
 	maxBound := 0
 	c14Baseline(w)
 	for _, j := range jobs {
@@ -493,6 +547,9 @@ func replayC14(w *explore.Worker, raw json.RawMessage) {
 		}
 		for _, v := range out.Violations {
 			w.Violation(v.Signature, v.Detail, 0, r)
+		}
+		if os.Getenv("VERIF_SHOW_CANON") != "" {
+			fmt.Fprintf(os.Stderr, "canon: %s\n", out.Canon)
 		}
 	}
 }
